@@ -89,6 +89,17 @@ CLAIMED['C12'] = dict(
     note='Trusted: logos implements longest match with token-over-regex priority for the rules it is given; the reference lexical grammar in specs/c12.py (WIT-style identifier words); semver automaton (validated in C15); z3 re theory.',
     design='DESIGN.md section 3 / C12')
 
+CLAIMED['C11'] = dict(
+    technique='symbolic execution of rustc MIR (M2S) of both target-conformance checks with an uninterpreted subtype relation and contract-level NameMap; z3 decides verdict == conformance predicate',
+    text='wac_types::validate_target (binary check) and AstResolver::validate_target (resolution-time check): for every world and component with up to K imports / '
+         'exports, arbitrary name identities and semver tracks, arbitrary sub-verdicts of `<:` and one implicitly imported interface, the verdict is Ok exactly when '
+         'every component import is offered by the world (explicitly or through a used interface) with promote(world kind) <: import kind and every world export is '
+         'provided with export kind <: promote(expected); the resolution-time check additionally returns the diagnostic class of the first failure. The binary check uses '
+         'semver-aware name lookup (NameMap contract from C15), the resolution-time check exact names - the agreement of the two on versioned names, and agreement with the '
+         'reference validator, are outside the claim (DESIGN.md records the observed divergence).',
+    note='Trusted: `<:` uninterpreted (C07), NameMap contract (C15), World::implicit_imported_interfaces as an arbitrary input, M2S, z3. Counterexamples of the binary check are replayed through wac_types::validate_target on built Types; those of the resolution-time check are rule-level only.',
+    design='DESIGN.md section 3 / C11')
+
 NOT_APPLICABLE = {
  'C01': 'validity is defined by an external 60 kLoC validator over whole-pipeline output; neither it nor the encoder can be executed symbolically here (DESIGN.md section 4)',
  'C05': 'needs wit-component as reference encoder and the validator subtype relation as comparison; out of reach of symbolic execution (DESIGN.md section 4)',
